@@ -477,9 +477,17 @@ func R71() Rule {
 				if _, isFn := a.Type().Underlying().(*types.Signature); !isFn {
 					continue
 				}
-				if cb := closureOf(a); cb != nil && cb.Blocks != nil && !cbs[cb] {
-					cbs[cb] = true
-					order = append(order, cb)
+				// the callback itself, or — when the dispatch sits in a helper that takes it as a parameter —
+				// what every caller passes
+				cands := []ssa.Value{a}
+				if closureOf(a) == nil {
+					cands = P.Origins(a, within)
+				}
+				for _, o := range cands {
+					if cb := closureOf(o); cb != nil && cb.Blocks != nil && !cbs[cb] {
+						cbs[cb] = true
+						order = append(order, cb)
+					}
 				}
 			}
 		}
